@@ -212,5 +212,6 @@ pub fn property() -> Property {
             direct: None,
         }],
         assumptions: &["AR, OD, HP, CS and hit-window fields may legitimately be negative or exceed 10 under overrides; only finiteness is required of them"],
+        enumerate: None,
     }
 }
